@@ -1052,10 +1052,10 @@ def _run(ck):
         if not in_domain:
             ck.count("guard:outside the property's domain (name / tag form)")
         if in_domain:
-            every = 4 if thorough else 20
+            every = 10 if thorough else 20
             special = tag in ("shape", "int", "float", "bool", "tag", "prop")
             embedded_tree(ck, hosts, kvs, with_doc=(special or ntree % every == 0),
-                          all_hosts=(thorough or special or ntree % 3 == 0))
+                          all_hosts=(special or ntree % 3 == 0))
         for ly in (0, 1):
             if in_domain:
                 oracle_tree(ck, kvs, ly)
@@ -1190,11 +1190,11 @@ def _run(ck):
         ck.notes.append("fixture_rewrite differ on layout %d blob of %d bytes" % (fx_r[i][0][0], len(fx_r[i][0][1])))
     _phase(ck, "raw bytes: fixtures, embedded fixtures, malformed, relayout")
     # ---------------- single-byte white-space edits of the fixture blobs (theorems parse_whitespace_insensitive /
-    # divider_required): every divider deleted, a divider inserted at every token boundary (thorough: all edits of four
+    # divider_required): every divider deleted, a divider inserted at every token boundary (thorough: all edits of two
     # blobs, a sample of the others; quick: a sample of two)
-    full = ("engine_data/TySh_1.dat", "engine_data/Txt2_3.dat", "engine_data/Txt2_4.dat", "psd_files/layers/type-layer.psd#0")
+    full = ("engine_data/TySh_1.dat", "psd_files/layers/type-layer.psd#0")
     if thorough:
-        plan = [(nm, b, 0 if nm in full else 240) for nm, b in ublobs]
+        plan = [(nm, b, 0 if nm in full else (600 if nm.endswith(".dat") else 120)) for nm, b in ublobs]
     else:
         plan = [(nm, b, 110) for nm, b in ublobs if nm in ("engine_data/TySh_1.dat", "engine_data/Txt2_4.dat")]
     for bi, (nm, b, limit) in enumerate(plan):
